@@ -319,6 +319,14 @@ pub fn judge(ctx: &mut Ctx, r: &PortableRegistry, substitutes: &[(String, String
             }
         }
     }
+    // "every compact field its marker" also on the other route to an item: a struct built from a
+    // member list through create_composite_ir_kind + upcast_composite, with codec attributes on and
+    // whatever derives are configured (none at all here)
+    {
+        let mut bare = combo(63, substitutes);
+        bare.global_derives.clear();
+        crate::mon::c18::judge_compact_markers(ctx, r, &bare, "C09:codec-on:standalone-compact-marker", "built with codec attributes on and no derives", &|_, _| replay(63));
+    }
     // the root name is an opaque identifier: a root spelled like the first segment of the registry's
     // own paths (`krate` for `krate::m::Foo`) must give the output of any other root name with that
     // name substituted, token for token
